@@ -106,6 +106,16 @@ class TMap(object):
                     continue
                 if isinstance(v, AbstractEnsembleSolver):
                     tr.ensemble = v
+            if tr.ensemble is None:     # the mapped function need not refer to the ensemble: look at the calling frames
+                fr = sys._getframe(1)
+                for _ in range(6):
+                    if fr is None:
+                        break
+                    v = fr.f_locals.get('self')
+                    if isinstance(v, AbstractEnsembleSolver):
+                        tr.ensemble = v
+                        break
+                    fr = fr.f_back
 
         if self.copy:
             import dill
@@ -149,7 +159,7 @@ class TMap(object):
 def nested_class(kind):
     import mystic.solvers as ms
     return {'NM': ms.NelderMeadSimplexSolver, 'Powell': ms.PowellDirectionalSolver,
-            'DE': ms.DifferentialEvolutionSolver}[kind]
+            'DE': ms.DifferentialEvolutionSolver, 'DE2': ms.DifferentialEvolutionSolver2}[kind]
 
 
 @contextlib.contextmanager
@@ -203,7 +213,8 @@ def guarded_default_map(trace, max_calls):
     n = [0]
 
     def python_map(func, *arglist, **kwds):
-        n[0] += 1
+        if trace.cur is None and trace.key is None:     # the ensemble's own map call, not DifferentialEvolutionSolver2's inside a member
+            n[0] += 1
         if n[0] > max_calls:
             raise Horizon('%d map calls' % n[0])
         return orig(func, *arglist, **kwds)
@@ -357,6 +368,7 @@ def execute(cfg, chooser=None, max_rounds=400):
     R.con = Con(*_consym(cfg['con'])) if cfg.get('con') else None
     R.pen = Ramp() if cfg.get('pen') else None
     R.term = make_term(cfg.get('term'))
+    R.term_given = R.term is not None
     box = box_of(cfg.get('box'), dim) if cfg.get('box') else None
     R.box = box
     lim = cfg.get('limits')
@@ -388,6 +400,49 @@ def execute(cfg, chooser=None, max_rounds=400):
     return R
 
 
+def range_mode(cfg):
+    kw = {}
+    if cfg.get('tight') is not None: kw['tight'] = cfg['tight']
+    if cfg.get('clip') is not None: kw['clip'] = cfg['clip']
+    return kw
+
+
+def solo(cfg, x0, term):
+    """differential oracle: a stand-alone nested solver configured by hand with what the ensemble was given
+    (start, box and range mode, constraint, penalty, limits, termination), run to completion on its own
+    recorder -> (call sequence, best solution, best energy) or ('error', ...)"""
+    import copy
+    tr = Trace()
+    tr.key = 'solo'
+    dim = ens_dim(cfg)
+    cost = SharedCost(cfg.get('cost', 'sphere'), tr, cfg.get('horizon', 20000))
+    rng = env.SeededRandom(cfg.get('seed', 0) + 7919)
+    old = sys.stdout
+    sys.stdout = io.StringIO()
+    try:
+        with env.owned_random(rng), wall_guard(cfg.get('wall_guard', 60)):
+            s = nested_class(cfg['nested'])(dim)
+            s.SetInitialPoints(list(x0))
+            if cfg.get('box'):
+                lo, hi = box_of(cfg['box'], dim)
+                s.SetStrictRanges(list(lo), list(hi), **range_mode(cfg))
+            if cfg.get('con'):
+                s.SetConstraints(Con(*_consym(cfg['con'])))
+            if cfg.get('pen'):
+                s.SetPenalty(Ramp())
+            if cfg.get('limits') is not None:
+                s.SetEvaluationLimits(cfg['limits'][0], cfg['limits'][1])
+            s.SetTermination(copy.deepcopy(term))
+            s.Solve(cost)
+        return ([(x, v) for k, x, v in tr.calls], tuple(float(v) for v in np.asarray(s.bestSolution).ravel()),
+                float(np.asarray(s.bestEnergy).ravel()[0]))
+    except Exception as e:
+        return ('error', type(e).__name__, str(e)[:200])
+    finally:
+        sys.stdout = old
+        cost.release()
+
+
 def _consym(sym):
     kind, variant = (sym.split('/') + ['pure'])[:2]
     return kind, variant == 'inplace'
@@ -399,14 +454,14 @@ def _class_api(cfg, cost, tr, R, max_rounds):
     R.solver = s
     dim = R.dim
     nested = nested_class(cfg['nested'])
-    if cfg['nested'] == 'DE':
+    if cfg['nested'] in ('DE', 'DE2'):
         s.SetNestedSolver(nested, NP=cfg.get('npop', 4))
     else:
         s.SetNestedSolver(nested)
     order = cfg.get('order', ('ranges', 'constraints', 'penalty', 'limits', 'term', 'evalmon', 'map'))
     for call in order:
         if call == 'ranges' and R.box is not None:
-            s.SetStrictRanges(list(R.box[0]), list(R.box[1]))
+            s.SetStrictRanges(list(R.box[0]), list(R.box[1]), **range_mode(cfg))
         elif call == 'constraints' and R.con is not None:
             s.SetConstraints(R.con)
         elif call == 'penalty' and R.pen is not None:
@@ -448,6 +503,8 @@ def _wrapper(cfg, cost, tr, R):
         kw['maxiter'], kw['maxfun'] = cfg['limits'][0], cfg['limits'][1]
     if R.box is not None:
         kw['bounds'] = list(zip(R.box[0], R.box[1]))
+        if cfg.get('tight') is not None: kw['tightrange'] = cfg['tight']
+        if cfg.get('clip') is not None: kw['cliprange'] = cfg['clip']
     if R.con is not None:
         kw['constraints'] = R.con
     if R.pen is not None:
